@@ -442,7 +442,9 @@ func (s *Stream) executeFlow(
 			}
 			node = edge.GetTargetNode()
 		} else {
+			// no connection leaves the node that answered the request: end of walk
 			log.Debug().Msgf("Short circuit node %v has no target node", startFromNode.GetProcessorKey())
+			return shortCircuitNode, nil
 		}
 	}
 
